@@ -50,6 +50,11 @@ def shape_ok(sp, obj, sels, data, path, err_paths):
     if not isinstance(data, dict):
         return "object expected at %s" % path
     grouped = sp.collect(obj, sels, set())
+    for k, nodes in grouped.items():
+        # a validated selection only ever asks an object for fields its type defines
+        for n in nodes:
+            if sp.field_def(obj, n["name"]) is None:
+                return "field %s selected (key %s) at %s is not defined on the runtime object type %s" % (n["name"], k, path, obj)
     want = [k for k, nodes in grouped.items() if sp.field_def(obj, nodes[0]["name"]) is not None]
     if list(data.keys()) != want:
         return "keys %s != %s at %s" % (list(data.keys()), want, path)
@@ -159,6 +164,8 @@ def one_document(ctx, schema, holder, dump, sdl, enum_kind, label, text, variabl
         return "raises:" + type(e).__name__
     if v.errors:
         ctx.stat(stream + ":rejected")
+        if label:
+            ctx.stat("rejected-adversarial:" + label)
         ctx.nontrivial((sdl, text))
         _sample(ctx, stream, {"stream": stream, "label": label, "document": text[:400], "variables": variables,
                               "validate": "rejected: %d error(s), first: %s" % (len(v.errors), str(v.errors[0])[:120])})
@@ -166,7 +173,7 @@ def one_document(ctx, schema, holder, dump, sdl, enum_kind, label, text, variabl
     ctx.stat(stream + ":accepted")
     if label:
         ctx.stat("accepted-adversarial:" + label)
-    for k in range(6 if (label or "").startswith("same-key") else 2):
+    for k in range(6 if (label or "").startswith(("same-key", "untyped-inline")) else 2):
         c = K.Case()
         c.sdl, c.enum_kind, c.text, c.variables, c.opname = sdl, enum_kind, text, variables, opname
         c.seed, c.mode, c.features = rng.randint(0, 10 ** 6), 0, set()
@@ -373,10 +380,10 @@ def run(ctx):
         ctx.notes.append("Lean driver not available: only the direct oracle ran")
 
 
-FIXED_SDL = ("type Query { a(l: [Int], x: String, o: In, i: Int): Int, b: Ob, u: U, n: Node, s: String! }\n"
-             "type Ob implements Node { id: ID, t(x: Int): String, a(l: [Int]): Int, b: Ob }\n"
-             "type Other implements Node { id: ID, t(x: Int): String, c: String }\n"
-             "interface Node { id: ID, t(x: Int): String }\ninput In { a: Int }\nunion U = Ob | Other\n")
+FIXED_SDL = ("type Query { a(l: [Int], x: String, o: In, i: Int): Int, b: Ob, u: U, n: Node, ns: [Node!], s: String! }\n"
+             "type Ob implements Node { id: ID, t(x: Int): String, a(l: [Int]): Int, b: Ob, only: Other }\n"
+             "type Other implements Node { id: ID, t(x: Int): String, c: String, b: Ob }\n"
+             "interface Node { id: ID, t(x: Int): String, b: Ob }\ninput In { a: Int }\nunion U = Ob | Other\n")
 
 FIXED = [
     ("V1-inline-unknown-type", "{ ... on Unknown { a } }", {}),
@@ -408,6 +415,14 @@ FIXED = [
     ("spread-disabled-then-enabled", "{ a ...F @skip(if: true) ...F } fragment F on Query { s }", {}),
     ("spread-disabled-then-enabled-vars", "query($x: Boolean!, $y: Boolean!) { ...F @include(if: $x) a ...F @include(if: $y) } fragment F on Query { s }", {"x": False, "y": True}),
     ("spread-disabled-then-enabled-nested", "{ ... { ...F @skip(if: true) } b { id } ...G } fragment G on Query { ...F } fragment F on Query { s }", {}),
+    ("untyped-inline-leak-leaf", "{ n { b { ... { id } } ... { a } } }", {}),
+    ("untyped-inline-leak-directive", "{ n { b { ... @include(if: true) { id } } ... @skip(if: false) { a only { c } } } }", {}),
+    ("untyped-inline-leak-composite", "{ n { b { ... { id } } x: b { id } ... { only { c } } } }", {}),
+    ("untyped-inline-leak-nested-list", "{ ns { b { b { ... { ... { id } } } } ... { a } } }", {}),
+    ("untyped-inline-leak-leaf-as-composite", "{ n { b { ... { id } } ... { a { x } } } }", {}),
+    ("untyped-inline-leak-composite-as-leaf", "{ n { b { ... { id } } ... { only } } }", {}),
+    ("untyped-inline-leak-union", "{ u { ... on Node { b { ... { id } } } ... { id a } } }", {}),
+    ("untyped-inline-leak-other-level", "{ b { ... { id } } n { ... { a } } }", {}),
     ("same-key-same-field-both-orders", "{ n { ... on Node { k: id } ... on Ob { k: id } } u { ... on Ob { k: id } ... on Node { k: id } } }", {}),
 ]
 
